@@ -390,3 +390,7 @@ svd_col!(c01_svd_1x1, 1, 5);
 svd_col!(c01_svd_2x1, 2, 5);
 // @vp name=c01_svd_3x1 prop=C01 tier=thorough t=3600 fns=svd_mut,SVD::new size=3x1 dom=lattice(-4..4),nonzero,f32 stubs=traps,no_format,hyp32
 svd_col!(c01_svd_3x1, 3, 6);
+
+// NOTE: the SVD of a DIAGONAL 3x3 lattice matrix (nothing to reduce, only sign fixing and the ordering pass over symbolic
+// values) was tried with unwind 32 (the code's 30-sweep cap): not finished in 25 min.  Ordering of singular values for more than
+// one column therefore stays outside the claim; the seeded changes C01-2 and C07-1 (both in the shell sort of svd_mut) are missed.
